@@ -486,4 +486,12 @@ def run_diff_lines(text, tier='quick'):
         one(f'diffLines({lt!r}, {rt!r})', lt, rt, ll, rl)
         one(f'diffLines([{lt!r}], {rt!r})', [lt], rt, ll, rl)
     one("diffLines(['a\\nb', 'c'], ['a', 'b\\nc'])", ['a\nb', 'c'], ['a', 'b\nc'], ['a', 'b', 'c'], ['a', 'b', 'c'])
+    # array elements are split one by one: a carriage return at the end of an element is part of the line, an embedded CRLF / LF splits it
+    cr_l, cr_r = ['alpha\r', 'beta\r', 'gamma'], ['alpha', 'beta', 'gamma']
+    one('diffLines(lines ending in CR, plain lines)', list(cr_l), list(cr_r), cr_l, cr_r)
+    one('diffLines(lines ending in CR, the same)', list(cr_l), list(cr_l), cr_l, cr_l)
+    one("diffLines(['x\\r', 'y'], 'x\\r\\ny')", ['x\r', 'y'], 'x\r\ny', ['x\r', 'y'], ['x', 'y'])
+    one("diffLines(['p\\r\\nq\\r', 'r'], ['p', 'q\\r', 'r'])", ['p\r\nq\r', 'r'], ['p', 'q\r', 'r'], ['p', 'q\r', 'r'], ['p', 'q\r', 'r'])
+    one("diffLines(['', ''], [''])", ['', ''], [''], ['', ''], [''])
+    one("diffLines(['a', '', '', 'b'], ['a', '', 'b'])", ['a', '', '', 'b'], ['a', '', 'b'], ['a', '', '', 'b'], ['a', '', 'b'])
     return n, problems
